@@ -162,6 +162,10 @@ fn scaled_files(bsz: usize, maxm: usize, quick: bool) -> Vec<TextFile> {
 }
 
 fn features_proc(tf: &TextFile, bsz: u64, verdict: &Verdict, sym: &str) -> serde_json::Value {
+    features_proc_b(tf, bsz, verdict, sym, None)
+}
+
+fn features_proc_b(tf: &TextFile, bsz: u64, verdict: &Verdict, sym: &str, base: Option<&Verdict>) -> serde_json::Value {
     let blk0 = std::cmp::min(bsz as usize, tf.data.len());
     // messages that begin inside block zero and whose head line ends inside block zero
     let heads_in_blk0 = tf
@@ -183,6 +187,8 @@ fn features_proc(tf: &TextFile, bsz: u64, verdict: &Verdict, sym: &str) -> serde
         "block0_ge_8096": blk0 >= 8096,
         "complete_head_lines_in_block0": std::cmp::min(heads_in_blk0, 3),
         "nul_prefix": nul_prefix,
+        "base_verdict": match base { None => "n/a".to_string(), Some(Verdict::Ok) => "Ok".to_string(), Some(Verdict::Rejected(n)) => format!("Rejected:{}", n) },
+        "first_head_line_inside_default_block0": tf.first_head_line_end() <= std::cmp::min(65536, tf.data.len()),
     })
 }
 
@@ -228,7 +234,8 @@ fn part_processor(rep: &Report, prop: &str, files: &[(u64, TextFile)], dir: &str
                 }
             };
             if let Some(sym) = sym {
-                rep.violation(features_proc(tf, bsz, &verdict, &sym), format!("processor-level run, blocksz {}: {}", bsz, sym), replay_json(prop, "processor", tf, bsz, ".log"));
+                let bv = base.as_ref().map(|(v, _, _)| v);
+                rep.violation(features_proc_b(tf, bsz, &verdict, &sym, bv), format!("processor-level run, blocksz {}: {}", bsz, sym), replay_json(prop, "processor", tf, bsz, ".log"));
             }
         }
         rep.distinct(hash64(&tf.data));
